@@ -380,6 +380,16 @@ fn cost() -> BoxedStrategy<i64> {
     prop_oneof![12 => -20i64..100, 2 => -(1i64 << 40)..(1i64 << 40), 1 => Just(0i64), 1 => Just(i64::from(i32::MAX)), 1 => Just(-(1i64 << 40))].boxed()
 }
 
+/// "all max costs": small, wide, and the ends of the i64 range (an "unbounded" limit)
+fn max_cost_strategy() -> BoxedStrategy<i64> {
+    prop_oneof![
+        12 => 0i64..1000,
+        4 => -(1i64 << 50)..(1i64 << 50),
+        1 => prop::sample::select(vec![i64::MAX, i64::MIN, i64::MAX - 7, i64::MIN + 7, i64::MAX / 2, i64::MIN / 2]),
+    ]
+    .boxed()
+}
+
 pub fn scase_strategy(thorough: bool) -> BoxedStrategy<SCase> {
     let key = || prop_oneof![10 => 0u64..8, 1 => Just(u64::MAX), 1 => Just(0u64), 1 => any::<u64>()];
     let op = prop_oneof![
@@ -390,13 +400,13 @@ pub fn scase_strategy(thorough: bool) -> BoxedStrategy<SCase> {
         8 => key().prop_map(SOp::Remove),
         8 => key().prop_map(SOp::RemoveHashed),
         1 => Just(SOp::Clear),
-        3 => (-(1i64 << 50)..(1i64 << 50)).prop_map(SOp::UpdateMaxCost),
+        3 => max_cost_strategy().prop_map(SOp::UpdateMaxCost),
         6 => (prop::collection::vec((key(), cost()), 0..8), prop_oneof![1 => Just(0u8), 1 => 1u8..40]).prop_map(|(v, slack)| SOp::FillSample(v, slack)),
         8 => cost().prop_map(SOp::RoomLeft),
     ];
     let n = if thorough { 200 } else { 80 };
     (
-        prop_oneof![3 => 0i64..1000, 1 => -(1i64 << 50)..(1i64 << 50)],
+        max_cost_strategy(),
         prop_oneof![8 => 0usize..10, 1 => 10usize..64],
         prop::sample::select(vec![KhSpec::Default, KhSpec::Ident, KhSpec::Const, KhSpec::Fnv(1)]),
         prop::sample::select(vec![HSpec::Fnv(1), HSpec::Ident, HSpec::Zero, HSpec::Random]),
@@ -446,6 +456,7 @@ fn run_sampled_inner(c: &SCase, prop: E7Prop, rep: &mut CaseReport) -> Result<()
     let mut max_cost = c.max_cost;
     let mut reinc_then_check = false;
     let mut reinc_pending = false;
+    let mut extreme_checked = false;
     for (i, op) in c.ops.iter().enumerate() {
         rep.steps = i + 1;
         let chk = prop == E7Prop::C20;
@@ -559,10 +570,24 @@ fn run_sampled_inner(c: &SCase, prop: E7Prop, rep: &mut CaseReport) -> Result<()
                 _ => 0,
             };
             let got = s.room_left(probe);
-            if got != max_cost - sum - probe || s.get_max_cost() != max_cost {
-                return Err(sv(prop, i, "room-left", format!("step {i} {op:?}: room_left({probe}) = {got}, but max_cost {max_cost} - recorded costs {sum} - {probe} = {}; tracked {:?}", max_cost - sum - probe, m)));
+            // exact value in i128; where it does not fit into an i64 there is no right answer
+            // and nothing is demanded (the sum of <= 200 costs below 2^40 always fits)
+            let exact = max_cost as i128 - sum as i128 - probe as i128;
+            if s.get_max_cost() != max_cost {
+                return Err(sv(prop, i, "room-left", format!("step {i} {op:?}: get_max_cost() = {}, configured {max_cost}", s.get_max_cost())));
+            }
+            if let Ok(want) = i64::try_from(exact) {
+                if got != want {
+                    return Err(sv(prop, i, "room-left", format!("step {i} {op:?}: room_left({probe}) = {got}, but max_cost {max_cost} - recorded costs {sum} - {probe} = {want}; tracked {:?}", m)));
+                }
+                if max_cost > (1i64 << 60) || max_cost < -(1i64 << 60) {
+                    extreme_checked = true;
+                }
             }
         }
+    }
+    if extreme_checked {
+        rep.stats.hit(crate::model::Ev::ExtremeLimit);
     }
     rep.nontrivial = if prop == E7Prop::C20 { reinc_then_check } else { rep.steps >= 10 };
     Ok(())
